@@ -549,7 +549,11 @@ func (e *Engine) havocLocation(st *State, env *SpecEnv, m Expr) {
 				et := v.t.Underlying().(*types.Slice).Elem()
 				e.havocObject(st, et, x.Arr)
 			case VPtr:
-				e.havocObject(st, x.Root, x.Ref)
+				if x.ArrLen < 0 && len(x.Path) == 0 {
+					e.havocCell(st, x.Root, x.Ref, x.Idx)
+				} else {
+					e.havocObject(st, x.Root, x.Ref)
+				}
 			case Term:
 				if mt, ok := v.t.Underlying().(*types.Map); ok {
 					e.havocMap(st, mt, x)
@@ -786,4 +790,21 @@ var pureExterns = map[string]bool{
 	"github.com/pkg/errors.Wrapf": true, "github.com/pkg/errors.Wrap": true,
 	"(*sync.Mutex).Lock": true, "(*sync.Mutex).Unlock": true, "(*sync.RWMutex).Lock": true, "(*sync.RWMutex).Unlock": true,
 	"(*sync.RWMutex).RLock": true, "(*sync.RWMutex).RUnlock": true,
+}
+
+// havocCell havocs the single element idx of heap object ref (a pointer to a struct denotes that
+// element only; its sibling elements in the same object are out of its reach).
+func (e *Engine) havocCell(st *State, root types.Type, ref, idx Term) {
+	prefix := "A!" + heapTypeName(root) + "!"
+	for _, c := range flatten(root) {
+		name := heapName(root, c.Path)
+		e.heapGet(st, name, arrOf(arrOf(c.Sort)))
+	}
+	for name, h := range st.heap {
+		if strings.HasPrefix(name, prefix) {
+			fresh := e.sym.Fresh("hobj", elemSort(h.Sort))
+			e.typeObj(fresh, name)
+			st.heap[name] = Store(h, ref, Store(Select(h, ref), idx, Select(fresh, idx)))
+		}
+	}
 }
